@@ -43,7 +43,10 @@ pub fn programs() -> Vec<(&'static str, Vec<HRule>)> {
     ]
 }
 
-const QUERIES: [&str; 3] = ["F.g == true", "F.a == true", "F.g == false"];
+const QUERIES: [&str; 4] = ["F.g == true", "F.a == true", "F.g == false", "NOT F.g == true"];
+/// aggregate queries are queries too: one whose pattern can match, one that matches nothing, one whose WHERE
+/// pattern does not parse (the call returns an error)
+const AGGREGATES: [&str; 3] = ["count(?v) WHERE F.g == true", "count(?v) WHERE F.zz == true", "count(?v) WHERE F.g == == ("];
 
 #[derive(Clone, Debug)]
 pub enum Op {
@@ -52,6 +55,11 @@ pub enum Op {
     RemoveLeaf(usize),
     FreshFacts(u8),
     RetractInRete,
+    /// the leaf holds the *string* "true" (prints like the boolean)
+    SetLeafString(usize),
+    /// the caller's facts become one object fact `F` holding the leaves selected by the mask
+    FreshNested(u8),
+    Aggregate(usize),
 }
 
 pub struct Sys {
@@ -63,6 +71,8 @@ pub struct Sys {
     queries_done: Vec<(usize, String)>,
     facts_changed_since: BTreeMap<usize, bool>,
     max_queries: usize,
+    /// 0: flat boolean leaves; 1: value shapes (string "true", object fact); 2: aggregate and NOT queries
+    alphabet: u8,
 }
 
 fn kb_of(prog: &[HRule]) -> KnowledgeBase {
@@ -84,6 +94,19 @@ fn store(mask: u8) -> Facts {
     f
 }
 
+fn store_nested(mask: u8) -> Facts {
+    let f = Facts::new();
+    let mut o = std::collections::HashMap::new();
+    if mask & 1 != 0 {
+        o.insert(FIELDS[X].to_string(), Value::Boolean(true));
+    }
+    if mask & 2 != 0 {
+        o.insert(FIELDS[Y].to_string(), Value::Boolean(true));
+    }
+    f.set("F", Value::Object(o));
+    f
+}
+
 fn deep_copy(f: &Facts) -> Facts {
     let g = Facts::new();
     for (k, v) in f.get_all_facts() {
@@ -94,6 +117,9 @@ fn deep_copy(f: &Facts) -> Facts {
 
 impl Sys {
     pub fn new(prog: usize, with_rete: bool, max_queries: usize) -> Self {
+        Sys::with_alphabet(prog, with_rete, max_queries, 0)
+    }
+    pub fn with_alphabet(prog: usize, with_rete: bool, max_queries: usize, alphabet: u8) -> Self {
         let kb = kb_of(&programs()[prog].1);
         Sys {
             prog,
@@ -104,6 +130,7 @@ impl Sys {
             queries_done: vec![],
             facts_changed_since: BTreeMap::new(),
             max_queries,
+            alphabet,
         }
     }
     fn render(f: &Facts) -> String {
@@ -121,8 +148,36 @@ impl System for Sys {
     type Op = Op;
     fn enabled(&self) -> Vec<Op> {
         let mut v = vec![];
+        if self.alphabet == 1 {
+            if self.queries_done.len() < self.max_queries {
+                v.push(Op::Query(0));
+                v.push(Op::Query(1));
+            }
+            v.push(Op::SetLeaf(X, true));
+            v.push(Op::SetLeafString(X));
+            v.push(Op::RemoveLeaf(X));
+            v.push(Op::FreshFacts(0));
+            for m in 0..4u8 {
+                v.push(Op::FreshNested(m));
+            }
+            return v;
+        }
+        if self.alphabet == 2 {
+            if self.queries_done.len() < self.max_queries {
+                for q in 0..QUERIES.len() {
+                    v.push(Op::Query(q));
+                }
+                for a in 0..AGGREGATES.len() {
+                    v.push(Op::Aggregate(a));
+                }
+            }
+            v.push(Op::SetLeaf(X, true));
+            v.push(Op::SetLeaf(Y, true));
+            v.push(Op::FreshFacts(0));
+            return v;
+        }
         if self.queries_done.len() < self.max_queries {
-            for q in 0..QUERIES.len() {
+            for q in 0..3 {
                 v.push(Op::Query(q));
             }
         }
@@ -155,6 +210,33 @@ impl System for Sys {
                 self.changed();
                 Ok(3)
             }
+            Op::SetLeafString(k) => {
+                self.facts.set(&format!("F.{}", FIELDS[*k]), Value::String("true".to_string()));
+                self.changed();
+                Ok(5)
+            }
+            Op::FreshNested(m) => {
+                self.facts = store_nested(*m);
+                self.changed();
+                Ok(6)
+            }
+            Op::Aggregate(ai) => {
+                let q = AGGREGATES[*ai];
+                let before = Sys::render(&self.facts);
+                let mut copy = deep_copy(&self.facts);
+                let mut fresh = BackwardEngine::new(self.kb.clone());
+                // only success / error is compared: the count itself depends on candidate order (see below)
+                let exp = fresh.query_aggregate(q, &mut copy).map(|_| "value").map_err(|_| "error".to_string());
+                let got = self.eng.query_aggregate(q, &mut self.facts).map(|_| "value").map_err(|_| "error".to_string());
+                self.queries_done.push((100 + *ai, before.clone()));
+                if Sys::render(&self.facts) != before {
+                    self.changed();
+                }
+                if got != exp {
+                    return Err(Mismatch::tagged("aggregate_differs_from_fresh_engine", format!("program {}: `{}` on facts {} gave {:?}, a freshly built engine gives {:?}; earlier on this engine: {:?}", programs()[self.prog].0, q, before, got, exp, self.queries_done), &["aggregate_query"]));
+                }
+                Ok(hstr(&format!("agg{:?}", got)))
+            }
             Op::RetractInRete => {
                 if let Some(r) = &self.rete {
                     let mut e = r.lock().unwrap();
@@ -173,8 +255,11 @@ impl System for Sys {
                 let mut copy = deep_copy(&self.facts);
                 let mut fresh = BackwardEngine::new(self.kb.clone());
                 let fresh_rete = self.rete.as_ref().map(|_| Arc::new(Mutex::new(IncrementalEngine::new())));
-                let exp = fresh.query_with_rete_engine(q, &mut copy, fresh_rete).map(|r| r.provable).map_err(|e| format!("{:?}", e));
-                let got = self.eng.query_with_rete_engine(q, &mut self.facts, self.rete.clone()).map(|r| r.provable).map_err(|e| format!("{:?}", e));
+                let exp_full = fresh.query_with_rete_engine(q, &mut copy, fresh_rete).map(|r| (r.provable, r.solutions.len())).map_err(|e| format!("{:?}", e));
+                let got_full = self.eng.query_with_rete_engine(q, &mut self.facts, self.rete.clone()).map(|r| (r.provable, r.solutions.len())).map_err(|e| format!("{:?}", e));
+                let exp = exp_full.clone().map(|x| x.0);
+                let got = got_full.clone().map(|x| x.0);
+                let facts_exp = Sys::render(&copy);
                 let repeated = self.facts_changed_since.get(qi).copied();
                 let mut tags: Vec<&str> = vec![];
                 if repeated == Some(true) {
@@ -203,6 +288,10 @@ impl System for Sys {
                         &tags,
                     ));
                 }
+                // The facts handed back and the number of solutions are NOT compared: two freshly built engines already
+                // differ in them (candidate rules come out of a HashSet; trying `a -> g` first for the goal `a` also
+                // derives `g`), so they are not a function of (rules, facts, configuration) on the unchanged code.
+                let _ = (&facts_exp, &got_full, &exp_full);
                 Ok(hstr(&format!("{:?}", got)))
             }
         }
@@ -215,6 +304,9 @@ impl System for Sys {
             Op::RemoveLeaf(_) => "remove_fact",
             Op::FreshFacts(_) => "fresh_facts",
             Op::RetractInRete => "retract_in_rete",
+            Op::SetLeafString(_) => "change_fact_type",
+            Op::FreshNested(_) => "fresh_nested_facts",
+            Op::Aggregate(_) => "aggregate_query",
         }
         .to_string()
     }
@@ -225,28 +317,37 @@ impl System for Sys {
 
 pub fn run(opts: &Opts) -> Vec<Report> {
     let mut out = vec![];
-    let plan: Vec<(&str, bool, usize, usize)> = match opts.tier {
-        Tier::Quick => vec![("memo_on_len5", false, 5, 5), ("rete_attached_len4", true, 4, 4)],
-        Tier::Thorough => vec![("memo_on_len6", false, 6, 6), ("rete_attached_len5", true, 5, 5)],
+    let plan: Vec<(&str, bool, usize, usize, u8)> = match opts.tier {
+        Tier::Quick => vec![("memo_on_len5", false, 5, 5, 0), ("rete_attached_len4", true, 4, 4, 0), ("value_shapes_len4", false, 4, 4, 1), ("aggregate_and_not_queries_len4", false, 4, 4, 2)],
+        Tier::Thorough => vec![("memo_on_len6", false, 6, 6, 0), ("rete_attached_len5", true, 5, 5, 0), ("value_shapes_len6", false, 6, 6, 1), ("aggregate_and_not_queries_len5", false, 5, 5, 2)],
     };
-    for (name, with_rete, depth, maxq) in plan {
+    for (name, with_rete, depth, maxq, alphabet) in plan {
         if !crate::props::wants(opts, name) {
             continue;
         }
         let mut total = Report::new(name);
         for p in 0..programs().len() {
             let mut cfg = Config::new(name, depth);
-            cfg.ctx = json!({"program": p, "program_name": programs()[p].0, "rules": programs()[p].1.iter().enumerate().map(|(i, r)| r.grl(&format!("R{}", i))).collect::<Vec<_>>(), "with_rete": with_rete, "max_queries": maxq});
+            cfg.ctx = json!({"program": p, "program_name": programs()[p].0, "rules": programs()[p].1.iter().enumerate().map(|(i, r)| r.grl(&format!("R{}", i))).collect::<Vec<_>>(), "with_rete": with_rete, "max_queries": maxq, "alphabet": alphabet});
             // root candidates come out of a HashSet: a prefix may behave differently when re-executed
             cfg.tolerate_divergent_replay = true;
-            total.merge(explore::explore(&move || Sys::new(p, with_rete, maxq), &cfg));
+            total.merge(explore::explore(&move || Sys::with_alphabet(p, with_rete, maxq, alphabet), &cfg));
         }
-        for l in ["query", "assert_fact", "change_fact", "remove_fact", "fresh_facts"] {
-            if !total.letters.contains_key(l) {
+        let expected: &[&str] = match alphabet {
+            1 => &["query", "assert_fact", "change_fact_type", "remove_fact", "fresh_facts", "fresh_nested_facts"],
+            2 => &["query", "aggregate_query", "assert_fact", "fresh_facts"],
+            _ => &["query", "assert_fact", "change_fact", "remove_fact", "fresh_facts"],
+        };
+        for l in expected {
+            if !total.letters.contains_key(*l) {
                 total.notes.push(format!("VACUITY: letter '{}' never enabled", l));
             }
         }
-        total.bound = format!("12 programs x all histories of length <= {} (<= {} queries) over query(3 goals) / assert, change, remove a leaf fact / replace the caller's facts by one of 4 stores{}; default configuration (memoisation on)", depth, maxq, if with_rete { " / retract in the attached RETE engine" } else { "" });
+        total.bound = match alphabet {
+            1 => format!("12 programs x all histories of length <= {} over query(2 goals) / leaf = true / leaf = the string \"true\" / remove leaf / flat empty store / one object fact F holding any subset of the leaves; default configuration (memoisation on)", depth),
+            2 => format!("12 programs x all histories of length <= {} over query(3 goals + a NOT goal) / query_aggregate(pattern that can match, matches nothing, does not parse) / assert a leaf / empty store; default configuration", depth),
+            _ => format!("12 programs x all histories of length <= {} (<= {} queries) over query(3 goals) / assert, change, remove a leaf fact / replace the caller's facts by one of 4 stores{}; default configuration (memoisation on)", depth, maxq, if with_rete { " / retract in the attached RETE engine" } else { "" }),
+        };
         out.push(total);
     }
     out
@@ -257,5 +358,6 @@ pub fn replay(case: &serde_json::Value) -> crate::props::ReplayResult {
     let wr = case["ctx"]["with_rete"].as_bool().unwrap_or(false);
     let mq = case["ctx"]["max_queries"].as_u64().unwrap_or(6) as usize;
     let ch = crate::props::choices_of(case);
-    crate::props::conv(explore::replay_repeated(&move || Sys::new(p, wr, mq), &ch, 25))
+    let al = case["ctx"]["alphabet"].as_u64().unwrap_or(0) as u8;
+    crate::props::conv(explore::replay_repeated(&move || Sys::with_alphabet(p, wr, mq, al), &ch, 25))
 }
